@@ -32,12 +32,12 @@ func (ci CombinedId) HasPrefix(prefix string) bool {
 
 // UnmarshalGQL implement the Unmarshaler interface for gqlgen
 func (ci *CombinedId) UnmarshalGQL(v interface{}) error {
-	_, ok := v.(string)
+	str, ok := v.(string)
 	if !ok {
 		return fmt.Errorf("CombinedIds must be strings")
 	}
 
-	*ci = v.(CombinedId)
+	*ci = CombinedId(str)
 
 	if err := ci.Validate(); err != nil {
 		return errors.Wrap(err, "invalid CombinedId")
